@@ -113,6 +113,19 @@ def gen_uamiv_read_domain(rng):
             return c
 
 
+def gen_uamiv_emis2d(rng):
+    """2-D gridded emissions: one layer of data; the grid header says nz = 1 or (older files) nz = 0"""
+    while True:
+        c = gen_uamiv(rng)
+        c['name'] = 'EMISSIONS'
+        nt = len(c['tflag'])
+        if c['tstep'] % 2 == 1 and min(c['nx'], c['ny'], nt) >= 2 and c['tflag'][0][0] == c['etflag'][-1][0]:
+            c['nz'] = 1
+            c['data'] = [[spc[:1] for spc in step] for step in c['data']]
+            c['hdr_nz'] = rng.choice([0, 1])
+            return c
+
+
 def view_of_record_reader(f):
     names = list(f.variables.keys())
     nt = len(f.dimensions['TSTEP'])
@@ -137,7 +150,7 @@ def grid_words(c):
     g = c['grid']
     i32 = lambda v: v & 0xffffffff
     return [f32bits(g['PLON']), f32bits(g['PLAT']), i32(g['IUTM']), f32bits(g['XORIG']), f32bits(g['YORIG']),
-            f32bits(g['XCELL']), f32bits(g['YCELL']), c['nx'], c['ny'], c['nz'], i32(g['CPROJ']), i32(g['ISTAG']),
+            f32bits(g['XCELL']), f32bits(g['YCELL']), c['nx'], c['ny'], c.get('hdr_nz', c['nz']), i32(g['CPROJ']), i32(g['ISTAG']),
             f32bits(g['TLAT1']), f32bits(g['TLAT2']), 0]
 
 
@@ -275,9 +288,9 @@ def uamiv_content_tokens(c):
                                                  hexwords([w for spc in step for lay in spc for w in lay])))
     sp = ';'.join(lib.show_list(codes(s, 10)) for s in c['species'])
     b0, e1 = c['tflag'][0], c['etflag'][-1]
-    return 'name=%s note=%s itzon=%08x ftime=%08x:%08x:%08x:%08x grid=%s species=%s steps=%s' % (
+    return 'name=%s note=%s itzon=%08x ftime=%08x:%08x:%08x:%08x grid=%s species=%s lay=%d steps=%s' % (
         lib.show_list(codes(c['name'], 10)), lib.show_list(codes(c['note'], 60)), c['itzon'] & 0xffffffff,
-        yyjjj(b0[0]), hour(b0[1]), yyjjj(e1[0]), hour(e1[1]), hexwords(grid_words(c)), sp, '|'.join(steps) or '-')
+        yyjjj(b0[0]), hour(b0[1]), yyjjj(e1[0]), hour(e1[1]), hexwords(grid_words(c)), sp, c['nz'], '|'.join(steps) or '-')
 
 
 def ref_encode_uamiv(c):
